@@ -461,7 +461,23 @@ def patho_fused_zero_member(rng):
     return b
 
 
+def patho_block_general_shared_column(rng):
+    """two generally contracted shells of one momentum on different exponents, each carrying its free primitive as a unit column
+    that is string-identical in both (block-general contractions: the jgauss-* sets of the store)"""
+    b = gen_basis(rng, nel=1, allow_fused=False, lmax=1)
+    el = next(iter(b['elements'].values()))
+    l = rng.choice([0, 1])
+    unit = ['.0000000', '.0000000', '1.0000000']
+    el['electron_shells'] = [{'function_type': 'gto', 'region': '', 'angular_momentum': [l], 'exponents': ['412.5', '62.1', '13.9'],
+                              'coefficients': [['0.0191', '0.1343', '0.4743'], list(unit)]},
+                             {'function_type': 'gto', 'region': '', 'angular_momentum': [l], 'exponents': ['5.27', '1.13', '0.31'],
+                              'coefficients': [['-0.1102', '0.3915', '0.7421'], list(unit)]}]
+    b['function_types'] = whole_types(b['elements'])
+    return b
+
+
 NOT_VALIDATOR_VALID = [patho_fused_zero_member]
 PATHOLOGICAL = [patho_dup_function, patho_contraction_on_free, patho_mixed_fused, patho_spd, patho_spd_free_low, patho_pd_fused,
                 patho_equal_coefficients, patho_plain_then_fused_shared, patho_cancelling, patho_unsorted_fused, patho_respelled_shared,
-                patho_p_only_primitive_in_sp, patho_tiny_edge_coefficient]
+                patho_p_only_primitive_in_sp, patho_tiny_edge_coefficient,
+                patho_block_general_shared_column]
